@@ -35,7 +35,7 @@ RULE = ("cases = (call form, segment or polyline, query point) triples, distinct
         "points are enumerated by itertools.product without repetition and each form is called once per pair; "
         "non-trivial = the nearest point is not a vertex of the polyline (interior foot), or two proper segments attain "
         "the minimum distance at different points / without being adjacent")
-ASSUMPTIONS = ["coordinates are dyadic rationals of magnitude < 200 (lattice points mapped through the alphabet variant)",
+ASSUMPTIONS = ["coordinates are dyadic rationals of magnitude < 200 (lattice points mapped through the alphabet variant), and, in the decimal frame, one- and two-decimal literals of mixed sign up to 101.4 (judged exactly as rationals of the doubles they are)",
                "a single zero-length segment is outside the domain of proj_segment; polylines have at least one segment of "
                "positive length; zero-length segments are mixed in",
                "the index returned for a polyline is accepted when the returned point lies on that segment, zero-length "
@@ -48,6 +48,7 @@ ASSUMPTIONS = ["coordinates are dyadic rationals of magnitude < 200 (lattice poi
 N_VARIANTS = 4
 
 OBLIGATIONS = {
+    "decimal_coordinates": "the same segments, polylines and queries with decimal (not exactly representable) coordinates",
     "long_polyline": "a polyline of 17 or more vertices (serpentine, zigzag, hairpin, fan) was queried on the whole lattice around it",
     "vertical_segment": "a case whose carrying / only segment has x1 == x2",
     "horizontal_segment": "a case whose carrying / only segment has y1 == y2",
@@ -77,7 +78,7 @@ def bounds(tier, variant):
          "long_polylines": {"shapes": LONG_SHAPES, "vertices": LONG_N[tier], "queries": "all %s points of [%d,%d] x [%d,%d]" % (
              "half-integer" if tier == "thorough" else "integer", LONG_Q[0][0], LONG_Q[0][1], LONG_Q[1][0], LONG_Q[1][1])},
          "forms": ["proj_segment", "proj_polyligne", "mapOnTrack(coord)", "mapOnTrack(track)"],
-         "lattice_offset_scale": list(alpha.PLANAR[variant])}
+         "lattice_offset_scale": list(alpha.PLANAR[_base(variant)])}
     if tier == "thorough":
         b["segment_queries"] = "all half-integer points of [%d,%d]^2" % SEG_RANGE
         b["polyline_queries_half_integer"] = "all half-integer points of [%d,%d]^2 for polylines of 2..4 vertices" % Q_RANGE
@@ -88,7 +89,29 @@ def bounds(tier, variant):
 # ---------------------------------------------------------------------------
 # alphabet
 # ---------------------------------------------------------------------------
+# The "decimal" frame (variant + 10): lattice index -2..3 -> a decimal literal (not an affine image of the integers), the
+# coordinates real data has; half-integers fall half-way.  Exactly representable arithmetic hides rounding in a*x + b*y + c.
+DECIMAL_X = [-5.0, -2.3, 0.4, 3.1, 5.7, 101.4]
+DECIMAL_Y = [-4.9, -3.0, -1.1, 0.7, 2.6, 48.85]
+
+
+def _base(variant):
+    return variant % 10
+
+
+def _pl(table, u):
+    u = u + 2
+    i = min(len(table) - 2, max(0, int(math.floor(u))))
+    if u == i:
+        return table[i]
+    if u == i + 1:
+        return table[i + 1]
+    return table[i] + (u - i) * (table[i + 1] - table[i])
+
+
 def _P(variant, p):
+    if variant >= 10:
+        return (_pl(DECIMAL_X, p[0]), _pl(DECIMAL_Y, p[1]))
     return alpha.xy(variant, p[0], p[1])
 
 
@@ -247,7 +270,7 @@ def _index(v, nseg):
 
 
 def _mk_track(variant, pts):
-    t0 = alpha.t0(variant)
+    t0 = alpha.t0(_base(variant))
     return Track([Obs(ENUCoords(x, y, 0.0), alpha.obstime(t0 + k)) for k, (x, y) in enumerate(pts)])
 
 
@@ -362,11 +385,11 @@ def probe():
 # ---------------------------------------------------------------------------
 def _seg_points(variant):
     r = _lattice(*SEG_RANGE)
-    return alpha.order(variant, [(x, y) for x in r for y in r])
+    return alpha.order(_base(variant), [(x, y) for x in r for y in r])
 
 
 def _poly_points(variant):
-    return alpha.order(variant, [(x, y) for x in range(POLY_SIDE) for y in range(POLY_SIDE)])
+    return alpha.order(_base(variant), [(x, y) for x in range(POLY_SIDE) for y in range(POLY_SIDE)])
 
 
 def _plan_variant(tier, variant, deep):
@@ -386,12 +409,12 @@ def _plan_variant(tier, variant, deep):
 
 def plan(tier, variant):
     if tier == "quick":
-        return _plan_variant("quick", variant, False)
+        return _plan_variant("quick", variant, False) + _plan_variant("quick", variant + 10, False)
     sh = []
     for v in range(N_VARIANTS):
         if v != variant:
             sh += _plan_variant("quick", v, False)
-    return _plan_variant("thorough", variant, True) + sh
+    return _plan_variant("thorough", variant, True) + _plan_variant("quick", variant + 10, True) + sh
 
 
 # ---- long polylines (17..40 vertices): the nearest segment is generally not next to the nearest vertex ----------------
@@ -440,6 +463,8 @@ def _run_long(shard, ctx):
 
 
 def run_shard(shard, ctx):
+    if shard["variant"] >= 10:
+        ctx.oblige("decimal_coordinates")
     if shard["kind"] == "long":
         _run_long(shard, ctx)
     elif shard["kind"] == "segments":
@@ -452,7 +477,7 @@ def _run_segments(shard, ctx):
     v = shard["variant"]
     a = tuple(shard["a"])
     r = _lattice(SEG_RANGE[0], SEG_RANGE[1], shard["qstep"])
-    Q = alpha.order(v, [(x, y) for x in r for y in r])
+    Q = alpha.order(_base(v), [(x, y) for x in r for y in r])
     for b in _seg_points(v):
         if b == a:
             continue          # a single zero-length segment is outside the domain
@@ -469,7 +494,7 @@ def _run_polylines(shard, ctx):
     r = _lattice(*Q_RANGE)
     rows = [[(x, y) for x in r] for y in r]                    # one query track per lattice row
     if v in (1, 2):
-        rows = [alpha.order(v, row) for row in alpha.order(v, rows)]
+        rows = [alpha.order(_base(v), row) for row in alpha.order(_base(v), rows)]
     rh = _lattice(Q_RANGE[0], Q_RANGE[1], 0.5)
     rows_half = [[(x, y) for x in rh if (x != int(x) or y != int(y))] for y in rh]   # the half-integer points not yet covered
     n_done = 0
